@@ -150,6 +150,44 @@ def r_resume(form, masked):
     cover("resumed")
 
 
+def r_after_reject(n, frags):
+    """an ill-formed text message (n symbolic bytes in `frags` fragments) is rejected with a payload exception; the caller
+    goes on receiving: the following frames must decode exactly (nothing of the rejected message may linger)"""
+    quiet_logging()
+    Proto, Payload, Closed = _exc_classes()
+    bad = sx.sym_bytes("x", n)
+    sx.assume(sx.Not(sx.utf8_valid(bad)))
+    p2 = sx.sym_bytes("q", 2)
+    p3 = sx.sym_bytes("r", 1)
+    sx.assume(p3[0] < 128)
+    stream = b""
+    cut = n // 2 if frags == 2 else n
+    if frags == 2:
+        stream = server_frame(0, 1, bad[:cut]) + server_frame(1, 0, bad[cut:])
+    else:
+        stream = server_frame(1, 1, bad)
+    stream = stream + server_frame(1, 2, p2) + server_frame(1, 1, p3)
+    sock = FakeSock([stream, "eof"])
+    ws = new_ws(sock)
+    try:
+        ws.recv_data()
+        sx.require(False, "ill-formed text message delivered", n=n)
+        return
+    except Payload:
+        pass
+    try:
+        op2, d2 = ws.recv_data()
+        op3, d3 = ws.recv_data()
+    except (sx.Control, sx.ConcreteFailure, sx.ReplayMismatch):
+        raise
+    except Exception as e:
+        sx.require(False, "receive after a rejected message raised %s" % type(e).__name__, n=n, frags=frags)
+        return
+    sx.require(sx.And(op2 == 2, d2 == p2), "frame after a rejected message decodes with its own opcode and payload", n=n, frags=frags)
+    sx.require(sx.And(op3 == 1, d3 == p3), "second frame after a rejected message decodes exactly", n=n, frags=frags)
+    cover("after-reject")
+
+
 def r_seq(k, api):
     """k back-to-back valid frames with symbolic FIN/opcode/mask/payload; the receive API must hand them out in
     order with identical fields"""
@@ -235,6 +273,11 @@ def r_msg(op, n):
     cover("both-delivered")
 
 
+def _u_reconnect(n, lost):
+    from .c06 import u_reconnect
+    return u_reconnect(n, lost)
+
+
 def obligations(tier):
     thorough = tier == "thorough"
     Ts = list(range(0, 11 if thorough else 9))
@@ -260,6 +303,12 @@ def obligations(tier):
         Obligation("R-resume", r_resume, [dict(form=f, masked=m) for f in (16, 64) for m in (0, 1)],
                    bounds="16-/64-bit length frames (126 / 130 bytes), masked and not, with one receive timeout after every possible number of header bytes",
                    must_cover=["resumed"], kernel=["frame_buffer.recv_frame (stage flags)", "recv_length", "recv_mask"]),
+        Obligation("R-after-reject", r_after_reject, [dict(n=n, frags=f) for n in (1, 2, 3) for f in (1, 2)],
+                   bounds="ill-formed text message of 1..3 symbolic bytes in 1 or 2 fragments, followed by a binary and a text frame",
+                   must_cover=["after-reject"], kernel=["continuous_frame.extract", "continuous_frame.add", "recv_data_frame"]),
+        Obligation("R-reconnect", _u_reconnect, [dict(n=n, lost=l) for n in (1, 2) for l in ("between-fragments", "inside-frame")],
+                   bounds="connection lost inside a frame / between fragments, connect() again on the same object, then a text frame of 1..2 arbitrary bytes "
+                          "(shared with C06 U-reconnect)", must_cover=["re-accepted"], kernel=["WebSocket.connect", "frame_buffer", "continuous_frame"]),
         Obligation("R-seq", r_seq, seq, bounds="k back-to-back frames (k<=%d), each: FIN, opcode, mask bit, key symbolic; payload "
                    "length 0..3 symbolic bytes; through recv_frame / recv_data_frame / recv_data" % max(s["k"] for s in seq),
                    must_cover=["seq-done"], budget_s=2400 if thorough else 600,
